@@ -26,6 +26,7 @@ EXTENDS Integers, Sequences, FiniteSets, TLC, Json
 CONSTANTS DelimChoices, QuoteChoices, EscChoices,   \* sets of characters
           CellChars,                                 \* characters a cell may hold
           MaxChars, MaxCells, MaxRows,               \* bounds on a table: total characters, total cells, rows
+          MaxRaw,                                    \* raw reading: texts of up to MaxRaw characters that no writer produced (0: none)
           LoaderRefusesClash
 
 CR == 4
@@ -34,7 +35,7 @@ EOL == 0
 
 VARIABLES cfg,      \* [delim, quote, esc, qall]
           table,    \* sequence of rows, each a sequence of cells, each a sequence of characters
-          phase,    \* "build" | "written" | "read" | "refused"
+          phase,    \* "build" | "written" | "read" | "refused" | "typing" | "rawread"
           text,     \* what DelimitedRowWriter produced
           back      \* what delimited_rows returned: <<"ok", rows>> or <<"err">>
 vars == <<cfg, table, phase, text, back>>
@@ -165,12 +166,27 @@ Write == /\ phase = "build" /\ LoaderAccepts(cfg)
 \* delimited_rows (rowio.py:175-202)
 Read == /\ phase = "written"
         /\ back' = ReadAll(Kw(cfg), text) /\ phase' = "read" /\ UNCHANGED <<cfg, table, text>>
-Next == Refuse \/ AddRow \/ AddCell \/ AddChar \/ Write \/ Read
+\* reading text that no writer produced (stray quotes, escapes at the end, bare line breaks ...): character by character,
+\* then delimited_rows; what it must return is what the csv reader automaton says, rows or a refusal
+TypeChar == /\ MaxRaw > 0 /\ LoaderAccepts(cfg) /\ ~cfg.qall                \* (quoting is a writer's setting)
+            /\ (phase = "build" /\ table = <<>>) \/ phase = "typing"
+            /\ Len(text) < MaxRaw
+            /\ \E c \in CellChars \cup {cfg.delim, cfg.quote, cfg.esc, CR, LF} : text' = Append(text, c)
+            /\ phase' = "typing" /\ UNCHANGED <<cfg, table, back>>
+ReadRaw == /\ phase = "typing"
+           /\ back' = ReadAll(Kw(cfg), text) /\ phase' = "rawread" /\ UNCHANGED <<cfg, table, text>>
+Next == Refuse \/ AddRow \/ AddCell \/ AddChar \/ Write \/ Read \/ TypeChar \/ ReadRaw
 Spec == Init /\ [][Next]_vars
 
 (* ------------------------------ C12 ------------------------------ *)
 RoundTrip == phase = "read" => back = <<"ok", table>>
-TypeOK == phase \in {"build", "written", "read", "refused"}
-Emit == phase \in {"read", "refused"} =>
+TypeOK == phase \in {"build", "written", "read", "refused", "typing", "rawread"}
+\* raw reading: whatever is returned holds every character that is not consumed as delimiter, quote, escape or line end
+\* at most once (the reader invents nothing)
+RawNeverLonger == phase = "rawread" /\ back[1] = "ok" =>
+   LET RECURSIVE N(_) N(r) == IF r = <<>> THEN 0 ELSE Len(Head(r)) + N(Tail(r))
+       RECURSIVE M(_) M(t) == IF t = <<>> THEN 0 ELSE N(Head(t)) + M(Tail(t))
+   IN M(back[2]) <= Len(text)
+Emit == phase \in {"read", "refused", "rawread"} =>
    PrintT(<<"VEC", ToJson([cfg |-> cfg, table |-> table, text |-> text, back |-> back, phase |-> phase])>>)
 =============================================================================
